@@ -219,7 +219,7 @@ def run(c):
             if o.get("panic"):
                 c.fail("oracle", "Run panics", input={"TruncateLen": o["L"], "file": o.get("version"), "first_match_site_without_a_report": {
                     "call": repr(b64((o.get("whole") or {}).get("text"))), "rule": o.get("rule"), "at": o.get("at"), "report_template": o.get("msg_tpl"),
-                    "suggest_template": o.get("sugg_tpl")}}, observed=o["panic"], expected="reports")
+                    "suggest_template": o.get("sugg_tpl")}, "first_comment_without_its_report": o.get("comment")}, observed=o["panic"], expected="reports")
                 continue
             inp = {"group": o["group"], "alternative": o["alt"], "report_template": o["msg_tpl"], "suggest_template": o["sugg_tpl"],
                    "at": o["at"], "TruncateLen": o["L"], "whole_match": repr(b64(o["whole"]["text"])), "node_ends_at_EOF": o["at_eof"],
@@ -297,7 +297,7 @@ def run(c):
         # the family of comment rules that name their groups alike: the rule that reports uses ITS OWN submatches, whatever the rules
         # tried on the comment before it (matched, rejected by their Where()) captured under the same names
         c.count(len(cfnone))
-        nstale = {}
+        nstale, nshort = {}, {}
         for o in cfams:
             c.count()
             for k in ("o_msg", "w_msg", "o_sugg", "w_sugg"):
@@ -317,6 +317,8 @@ def run(c):
             c.nontriv(("cfam", o["comment"], o["L"], o.get("version")))
             if o.get("stale"):
                 nstale[o.get("version")] = nstale.get(o.get("version"), 0) + 1
+            if "(?<" in (o.get("rule") or ""):
+                nshort[o.get("version")] = nshort.get(o.get("version"), 0) + 1
             if o["extra"]:
                 c.fail("oracle", "more than one comment-rule report for one comment", input=inp, expected=1, observed=1 + o["extra"])
             if o["o_group"] != o["w_group"] or o["o_line"] != o["w_line"]:
@@ -358,6 +360,10 @@ def run(c):
             c.obligation("coverage:%s: every version has >= 6 comment reports behind a rule that captured another text under the same name" % tag, not low,
                          "versions below: %s" % low)
             c.coverage["comment_reports_behind_a_rejecting_rule_with_alike_names"] = c.coverage.get("comment_reports_behind_a_rejecting_rule_with_alike_names", 0) + sum(nstale.values())
+            low = sorted(str(v) for v in versions_seen if nshort.get(v, 0) < 6)
+            c.obligation("coverage:%s: every version has >= 6 comment reports of a regexp that names groups in the short spelling (?<name>re)" % tag, not low,
+                         "versions below: %s" % low)
+            c.coverage["comment_reports_of_short_spelled_groups"] = c.coverage.get("comment_reports_of_short_spelled_groups", 0) + sum(nshort.values())
         # a comment rule with Suggest() only: message = "suggestion: " + the template (truncated), replacement untruncated
         suggonly = [o for o in obs if o["k"] == "engine-suggonly"]
         for o in suggonly:
